@@ -1,7 +1,7 @@
 """C11 — code ids and contract addresses are unique, stable and usable (DESIGN.md §5 C11)."""
 from vlib import q
 from vlib.cfg import cfg_of
-from vlib.prov import (peel, fmt, is_param, contains, alts, deep_peel, same_origin, is_param_field, leaves, root_param)
+from vlib.prov import (peel, fmt, is_param, contains, alts, deep_peel, same_origin, is_param_field, leaves, root_param, just)
 
 LEVEL = "other"
 EXPLANATION = (
@@ -32,6 +32,7 @@ def check(ctx, cfg):
     r7(ctx, cfg)
     r8(ctx, cfg)
     r9(ctx, cfg)
+    r10(ctx, cfg)
 
 
 def r8(ctx, cfg):
@@ -524,3 +525,56 @@ def r9(ctx, cfg):
             dd = dict(rv[2])
             ok = is_param(dd.get(fld, ("?",)), prm) and all(peel(v)[0] == "field" and peel(v)[2] == k and is_param(peel(v)[1], "self") for k, v in dd.items() if k != fld)
         ctx.ob(R, key, "keeps-the-generator-supplied", ok, "%s returns %s" % (name, d), fn=f, sample="self with {%s: Box::new(%s)}" % (fld, prm))
+
+
+def r10(ctx, cfg):
+    """"every stored or duplicated code can be ... queried under its id ... a contract's recorded code id, creator, admin and label are
+    exactly what was supplied": what the registry queries answer is the record itself -
+    ContractInfo { contract_addr } -> (code_id, creator, admin) of contract_data(storage, validated contract_addr);
+    CodeInfo { code_id } -> (that code_id, creator and checksum of code_data(that code_id))."""
+    F, P = cfg.facts, cfg.prov
+    R = "C11.R10"
+    key = "<wasm::WasmKeeper as wasm::Wasm>::query"
+    f = ctx.need_fn(R, key)
+    if f is None:
+        return
+
+    def reqf(o, arm, name):
+        o = peel(o)
+        return o[0] == "field" and o[2] == name and peel(o[1])[0] == "variant" and peel(o[1])[2] == arm and is_param(peel(o[1])[1], "request")
+
+    def field_of_contract(o, name):
+        def pred(x):
+            if not (x[0] == "field" and x[2] == name):
+                return False
+            r = peel(x[1])
+            if not (r[0] == "ok" and peel(r[1])[0] == "call" and peel(r[1])[1] == "wasm::Wasm::contract_data"):
+                return False
+            a = peel(r[1])[2]
+            ad = peel(a[2])
+            return is_param(a[1], "storage") and ad[0] == "ok" and peel(ad[1])[0] == "call" and peel(ad[1])[1].endswith("Api::addr_validate") and \
+                just(peel(ad[1])[2][1], lambda y: reqf(y, "ContractInfo", "contract_addr"))
+        return just(o, pred)
+
+    def field_of_code(o, name):
+        def pred(x):
+            if not (x[0] == "field" and x[2] == name):
+                return False
+            r = peel(x[1])
+            return r[0] == "ok" and peel(r[1])[0] == "call" and peel(r[1])[1] == W + "code_data" and just(peel(r[1])[2][1], lambda y: reqf(y, "CodeInfo", "code_id"))
+        return just(o, pred)
+    ci = [(b, t) for b, t in f.calls() if t["callee"]["key"] == "cosmwasm_std::ContractInfoResponse::new"]
+    ok = len(ci) == 1
+    if ok:
+        a = P.call_args(f, ci[0][1], ci[0][0])
+        ok = field_of_contract(a[0], "code_id") and field_of_contract(a[1], "creator") and field_of_contract(a[2], "admin")
+    ctx.ob(R, key, "ContractInfo-answers-the-stored-record", ok, "the ContractInfo query does not answer (code_id, creator, admin) of contract_data(validated contract_addr)", fn=f,
+           sample="ContractInfoResponse::new(contract.code_id, contract.creator, contract.admin, ..)")
+    if cfg.has("cosmwasm_1_2"):
+        co = [(b, t) for b, t in f.calls() if t["callee"]["key"] == "cosmwasm_std::CodeInfoResponse::new"]
+        ok = len(co) == 1
+        if ok:
+            a = P.call_args(f, co[0][1], co[0][0])
+            ok = just(a[0], lambda y: reqf(y, "CodeInfo", "code_id")) and field_of_code(a[1], "creator") and field_of_code(a[2], "checksum")
+        ctx.ob(R, key, "CodeInfo-answers-the-stored-record", ok, "the CodeInfo query does not answer (code_id, creator and checksum of code_data(code_id))", fn=f,
+               sample="CodeInfoResponse::new(code_id, code_data.creator, code_data.checksum)")
